@@ -57,6 +57,8 @@ def run(ctx):
         vlib.model_check(ctx, ["indexer"], "ChainIndexer.tla", "ChainIndexer_shallow.cfg", timeout=1800, deadlock=False)
         vlib.model_check(ctx, ["indexer"], "ChainIndexer.tla", "ChainIndexer_checked.cfg", timeout=1800, deadlock=False)
         vlib.model_check(ctx, ["indexer"], "ChainIndexer.tla", "ChainIndexer_asis.cfg", expect_violation="StoredIsCanonical", timeout=600, deadlock=False)
+        vlib.model_check(ctx, FAM, "BitCodecMC.tla", "BitCodec_ok.cfg", timeout=1800)
+        vlib.model_check(ctx, FAM, "BitCodecMC.tla", "BitCodec_eq.cfg", expect_violation="RoundTripInv", timeout=600)
         ctx.exhaustive = True
     indexer_part(ctx, q)
     trace = os.path.join(ctx.work, "logfilter.ndjson")
@@ -70,6 +72,8 @@ def run(ctx):
     for e in evs:
         if e["e"] == "query":
             ctx.signatures.add((e["mode"], e["via"], len(e["addrs"]), tuple(len(a) for a in e["topics"]), e["from"] < 0, e["to"] < 0, min(len(e["result"]), 3)))
+        elif e["e"] == "codec":
+            ctx.signatures.add(("codec", e["n"], e["encLen"] < e["n"], e["encLen"] == e["n"], e["same"]))
         else:
             ctx.signatures.add(("chain", e["size"], e["sections"]))
     ctx.samples = [{k: e[k] for k in ("mode", "via", "reported", "from", "to", "addrs", "topics")} | {"results": len(e["result"])} for e in evs if e["e"] == "query" and e["result"]][:5]
@@ -80,7 +84,7 @@ def run(ctx):
         ev = evs[line - 1] if 0 < line <= len(evs) else {}
         meta = os.path.join(ctx.work, "meta.json")
         json.dump({"seed": ctx.seed, "tier": ctx.tier, "line": line, "invariant": v.violated}, open(meta, "w"))
-        d = {k: ev.get(k) for k in ("e", "chain", "mode", "via", "reported", "from", "to", "addrs", "topics", "err")}
+        d = {k: ev.get(k) for k in ("e", "chain", "mode", "via", "reported", "from", "to", "addrs", "topics", "err", "n", "encLen", "decOk", "same", "data", "enc")}
         d["results"] = [(r["n"], r["k"]) for r in ev.get("result", [])][:20]
         ctx.violation("LogFilterTrace invariant %s false at trace line %s: %s" % (v.violated, line, json.dumps(d)[:900]), ctx.save_replay("trace", [trace, meta]))
     ctx.assumptions = ["chain indexer: chain operations are performed by the driver (headers and canonical hashes written, then newHead(...) called as the event loop does); the update loop is stepped through four hook sites (build tag verif)",
